@@ -554,7 +554,12 @@ def ops_frame(rng):
         if mode == "specs":
             op["given"] = {c: num_spec(rng, c, c == cols[-1]) for c in num_cols if rng.random() < 0.8}
         elif len(cols) > 1:
-            op["given"] = {":".join(cols): [({} if c == "b" or rng.random() < 0.2 else num_spec(rng, c, c == cols[-1])) for c in cols]}
+            lst = [({} if c == "b" or rng.random() < 0.35 else num_spec(rng, c, c == cols[-1])) for c in cols]
+            op["given"] = {":".join(cols): lst}
+            for c, sp in zip(cols, lst):
+                # an empty placeholder in the per-feature list falls back to the column's own specification
+                if not sp and c != "b" and rng.random() < 0.7:
+                    op["given"][c] = num_spec(rng, c, c == cols[-1])
     if mode == "time":
         op["time_axis"] = "t"
         op["time_width"] = rng.choice(["30d", "7d", "1d"])
